@@ -2,7 +2,7 @@
 //! are always read through public accessors (`into_repr`, `as_tuple`, `is_zero`, pub fields) and
 //! interpreted by the model - never through the crate's own `==` or `into_affine`.
 
-use ff_zeroize::{Field, PrimeField, PrimeFieldRepr};
+use ff_zeroize::{Field, PrimeField};
 use num_traits::Zero;
 use pairing_plus::bls12_381 as cr;
 use pairing_plus::{CurveAffine, CurveProjective};
